@@ -40,6 +40,10 @@ var verifC01Src = []string{
 	"declare tt view (c1); declare uu view (c1); insert into tt values (1); insert into uu values (1); commit; insert into tt values (2); insert into uu values (2), (3); rollback; select 1 / @z;",
 	// 12: COMMIT inside a block in which a temporary table shadows an outer one; both were changed
 	"declare tt view (c1); insert into tt values (1); if 1 = 1 then declare tt view (c1); insert into tt values (5), (6); commit; end if; insert into tt values (2); rollback; select 1 / @z;",
+	// 13: part of the procedure comes from a sourced file; the end of that file is not the end of the procedure
+	"insert into a values (2,'b'); source `inc.sql`; select 1 / @z;",
+	// 14: part of the procedure is an EXECUTEd text and a statement run inside a user-defined function
+	"insert into a values (2,'b'); execute 'insert into a values (3, ''c'')'; declare f function () as begin create table `new.csv` (c1); return 1; end; select f(); select 1 / @z;",
 }
 var verifC01Progs [][]parser.Statement
 var verifC01Count, verifC01CountU parser.SelectQuery
@@ -67,6 +71,7 @@ func VerifC01Procedures() {
 	proc := NewProcessor(tx)
 	scope := proc.ReferenceScope
 	z := int64(verifChoice("z", 2))
+	verifFileWrite("inc.sql", "insert into a values (3,'c'); create table `new.csv` (c1);")
 	verifVar(scope, "z", value.NewInteger(z))
 	if z == 0 {
 		verifVar(scope, "t", value.NewString("p\tq"))
@@ -142,6 +147,10 @@ func VerifC01Procedures() {
 		if !failed {
 			wantNew, newExists = "c2\n", true
 		}
+	case 13, 14:
+		if !failed {
+			wantA, wantNew, newExists = "id,v\n1,a\n2,b\n3,c\n", "c1\n", true
+		}
 	}
 	verifAssert("table file holds the last committed state", verifFileRead("a.csv") == wantA)
 	verifAssert("a created file exists iff it was committed", verifFileExists("new.csv") == newExists)
@@ -159,10 +168,14 @@ func VerifC01Procedures() {
 const verifC01B = "k\n\"7\""
 
 func listOf(newExists bool) string {
-	if newExists {
-		return "a.csv\nb.csv\nl.ltsv\nnew.csv"
+	l := "a.csv\nb.csv\nl.ltsv"
+	if verifFileExists("inc.sql") {
+		l = "a.csv\nb.csv\ninc.sql\nl.ltsv"
 	}
-	return "a.csv\nb.csv\nl.ltsv"
+	if newExists {
+		return l + "\nnew.csv"
+	}
+	return l
 }
 
 // The same procedures interrupted at any point at which csvq observes its context (up to the 12th
